@@ -281,7 +281,8 @@ func serverCase(r *rep.Report, stream []byte, label string) {
 
 func clientCase(r *rep.Report, reply []byte, label string) {
 	c := sx.L(sx.Sym("shake-client"), sx.I(int64(p9p.DefaultMSize)), sx.B(reply))
-	conn := lconn.NewScript([][]byte{append([]byte{}, reply...)})
+	conn := lconn.NewHeld([][]byte{append([]byte{}, reply...)}) // the server stays connected (and silent) after its reply
+	defer conn.Close()
 	ctx, cancel := context.WithCancel(context.Background())
 	type res struct {
 		s   p9p.Session
@@ -310,8 +311,28 @@ func clientCase(r *rep.Report, reply []byte, label string) {
 	if len(frames) > 0 {
 		sent = frames[0]
 	}
-	r.Case(c, sx.L(sx.B(sent), sx.Bool(ok), sx.I(int64(msize))), fmt.Sprintf("client:%s:%v", label, ok), true)
+	// a maximal write through the session: its frame shows whether the client honours the adopted msize
+	wlen := -1
+	if ok {
+		wctx, wcancel := context.WithCancel(ctx)
+		go got.s.Write(wctx, 7, make([]byte, 100000), 0)
+		for i := 0; i < 1000; i++ {
+			if fr, _ := splitFrames(conn.WrittenCopy()); len(fr) >= 2 {
+				wlen = len(fr[1])
+				break
+			}
+			time.Sleep(2 * time.Millisecond)
+			if i == 100 && msize < 23 {
+				break // nothing can be sent under such an msize
+			}
+		}
+		wcancel()
+	}
+	r.Case(c, sx.L(sx.B(sent), sx.Bool(ok), sx.I(int64(msize)), sx.I(int64(wlen))), fmt.Sprintf("client:%s:%v", label, ok), true)
 	cancel()
+	if ok && msize >= 24 && wlen != msize && msize <= 100023 {
+		r.Fail("version.client.maximal-write", fmt.Sprintf("after adopting msize %d a 100000-byte write went out as a frame of %d bytes", msize, wlen), c, nil)
+	}
 
 	key := "version.client."
 	if label != "rversion" {
